@@ -64,6 +64,22 @@ def sig_of(msg):
     return m.strip()[:200]
 
 
+def crash_detail(line, stderr):
+    m = re.search(r"ERROR: AddressSanitizer: ([A-Za-z-]+)", stderr)
+    if m:
+        fr = re.search(r"#\d+ 0x[0-9a-f]+ in ([^\n]*?/repo/[^\n]*)", stderr)
+        return "AddressSanitizer " + m.group(1) + (" in " + re.sub(r"0x[0-9a-f]+", "", fr.group(1)).strip()[:120] if fr else "")
+    m = re.search(r"([^\s:]+:\d+):\d+: runtime error: ([^\n]*)", stderr)
+    if m:
+        return "UBSan " + m.group(1) + " " + re.sub(r"0x[0-9a-f]+", "ADDR", m.group(2))[:140]
+    m = re.search(r"Assertion `([^']*)' failed", stderr)
+    if m:
+        return "assertion failed: " + m.group(1)
+    if "timeout" in line:
+        return "timeout (no progress)"
+    return re.sub(r"\d+", "N", line.replace("!CRASH", "").strip())
+
+
 def corpus_cases(pid):
     d = os.path.join(VERIF, "corpus", pid)
     out = []
@@ -95,18 +111,26 @@ class Engine:
         rc_i, io, ie = run_harness(self.exe, text, timeout=self.spec.harness_timeout, env_extra=self.spec.harness_env)
         return compare(text, mo, io), mo, io, ie
 
+    def single_sigs(self, hdr, lines):
+        """Runs one case alone; returns (set of signatures the implementation's own oracle / a crash
+        produces, stderr). A crash is described by what the sanitizer / assert reported."""
+        text = case_text(hdr, lines)
+        rc_i, io, ie = run_harness(self.exe, text, timeout=120, env_extra=self.spec.harness_env)
+        sigs = set()
+        for ln in io.splitlines():
+            if ln.startswith("!CRASH"):
+                sigs.add("crash: " + crash_detail(ln, ie))
+            elif ln.startswith("!") and self.spec.oracle_relevant(ln):
+                sigs.add(sig_of(ln))
+        return sigs, ie
+
     def impl_fails(self, hdr, lines, want_sig):
         """Does the implementation's own oracle (or a crash) report want_sig on this single case,
         and does the model consider the case valid (no precondition marker)?"""
-        text = case_text(hdr, lines)
-        rc_m, mo, me = run_model(text)
+        rc_m, mo, me = run_model(case_text(hdr, lines))
         if str(-555555) in mo:
             return False
-        rc_i, io, ie = run_harness(self.exe, text, timeout=120, env_extra=self.spec.harness_env)
-        for ln in io.splitlines():
-            if ln.startswith("!") and self.spec.oracle_relevant(ln) and sig_of(ln) == want_sig:
-                return True
-        return False
+        return want_sig in self.single_sigs(hdr, lines)[0]
 
     def shrink(self, hdr, lines, want_sig, budget=250):
         lo = self.spec.shrinkable_from()
@@ -128,22 +152,32 @@ class Engine:
     def report_from(self, cmpr, texts, impl_err, context):
         """Turns oracle failures / crashes of a comparison into violations. Returns number reported."""
         bycase = {h: l for h, l in split_cases(texts)}
-        seen = set()
+        seen = getattr(self, "_seen_sigs", set())
+        self._seen_sigs = seen
         n = 0
+        tried = 0
         for h, msgs in cmpr.oracle + cmpr.crashes:
             msgs = [m for m in msgs if self.spec.oracle_relevant(m)]
-            for msg in msgs[:1]:
-                sg = sig_of(msg)
+            if not msgs or tried >= 12:
+                continue
+            lines = bycase.get(h, [])
+            quick = {("crash" if m.startswith("!CRASH") else sig_of(m)) for m in msgs}
+            if quick <= seen:
+                continue
+            tried += 1
+            sigs, ie = self.single_sigs(h, lines)
+            seen |= quick
+            for sg in sorted(sigs):
                 if sg in seen:
                     continue
                 seen.add(sg)
-                lines = bycase.get(h, [])
                 small = self.shrink(h, lines, sg) if len(lines) > 3 else lines
+                _, ie2 = self.single_sigs(h, small)
                 self.rep.violation(
                     f"{self.spec.pid}: {sg}",
                     {"kind": "implementation violates the property's oracle", "context": context,
                      "component": self.spec.component, "case": case_text(h, small), "original_case": case_text(h, lines),
-                     "oracle_messages": msgs, "sanitizer": san_summary(impl_err)})
+                     "oracle_messages": msgs, "sanitizer": san_summary(ie2)})
                 n += 1
         return n
 
